@@ -1084,6 +1084,7 @@ RunResult simulate(const Scenario &sc) {
 			std::string target = "elsewhere/" + std::to_string(K->symlinks.size()) + ".out";
 			K->symlinks[o] = target;
 			K->symlink_of[target] = o;
+			K->logf("SYMLINK %s -> %s", o.c_str(), target.c_str());
 			int ino = (int)K->inodes.size();
 			K->inodes.emplace_back();
 			K->inodes[ino].complete = true;  // an older build's result
@@ -1429,6 +1430,7 @@ RunResult simulate(const Scenario &sc) {
 			for (auto &f : sc.files) if (f.first == kv.first) initial = true;
 			if (!initial) fsl += " " + kv.first;
 		}
+		for (auto &kv : K->symlinks) fsl += " " + kv.first + "@";  // a symbolic link that is still there
 		K->logf("%s", fsl.c_str());
 		K->logf("STATUS: %d", K->exit_status);
 	}
